@@ -1,7 +1,7 @@
 (* Properties_C07.v — MLR is ordinary least squares with intercept. *)
 From Coq Require Import Floats.
 From mathcomp Require Import all_ssreflect all_algebra.
-From LS Require Import NumOps RcfOps F64Ops Kernels Algebra Mlr MlrSpec GJ GjExec GjTotal.
+From LS Require Import NumOps RcfOps F64Ops Kernels Algebra Mlr MlrSpec GJ GjExec GjTotal OlsExec.
 Set Implicit Arguments. Unset Strict Implicit. Unset Printing Implicit Defensive.
 Import Order.TTheory GRing.Theory Num.Theory.
 Local Open Scope ring_scope.
@@ -59,9 +59,37 @@ Proof. exact: gj_inverse_mx. Qed.
 Theorem C07_executable_inverse_total (R : rcfType) p (A : seq (seq R)) : RcfOps.wf p p A -> (mx_of p p A \in unitmx)%R ->
   (mx_of p p (gj_inverse A) = invmx (mx_of p p A))%R.
 Proof. exact: gj_inverse_total. Qed.
+(* the whole chain for the EXECUTABLE OrdinaryLeastSquares (transpose, product kernel, pivoting inversion, two matrix-vector
+   products): for every n x p design of full column rank and every response — no cell of the data or of the two intermediate
+   results inside the missing-value window, which the matrix-vector kernel skips — the list program returns (Z'Z)^-1 Z'y, its
+   residual is orthogonal to every column of the design (residuals sum to zero when the first column is the ones), and no other
+   coefficient vector has a smaller residual sum of squares *)
+Section ExecutableOls.
+Variable R : rcfType.
+Variables (n p : nat) (Z : seq (seq R)) (y : seq R).
+Hypothesis wZ : RcfOps.wf n p Z.
+Hypothesis n_pos : (0 < n)%N.
+Hypothesis sy : size y = n.
+Hypothesis uG : ((mx_of n p Z)^T *m mx_of n p Z \in unitmx)%R.
+Hypothesis cZt : cleanm (transpose p Z).
+Hypothesis cy : cleanv y.
+Hypothesis cI : cleanm (gj_inverse (matmul p (transpose p Z) Z)).
+Hypothesis cZy : cleanv (matvec (transpose p Z) y).
+Theorem C07_executable_ols :
+  (cv_of p (ols Z y) = invmx ((mx_of n p Z)^T *m mx_of n p Z) *m ((mx_of n p Z)^T *m cv_of n y))%R.
+Proof. exact: ols_execE. Qed.
+Theorem C07_executable_normal_equations : ((mx_of n p Z)^T *m (cv_of n y - mx_of n p Z *m cv_of p (ols Z y)) = 0)%R.
+Proof. exact: ols_exec_normal_equations. Qed.
+Theorem C07_executable_least_squares (b' : 'cV[R]_p) :
+  (fro2 (cv_of n y - mx_of n p Z *m cv_of p (ols Z y)) <= fro2 (cv_of n y - mx_of n p Z *m b'))%R.
+Proof. exact: ols_exec_least_squares. Qed.
+End ExecutableOls.
 Print Assumptions C07_normal_equations.
 Print Assumptions C07_executable_inverse_meets_NZ.
 Print Assumptions C07_executable_inverse_total.
+Print Assumptions C07_executable_ols.
+Print Assumptions C07_executable_normal_equations.
+Print Assumptions C07_executable_least_squares.
 Print Assumptions C07_least_squares.
 Print Assumptions C07_exact_recovery.
 Print Assumptions C07_gauss_jordan_sound.
